@@ -41,9 +41,12 @@ RULE = (
     "geometry given alternately by shape and by spacing; plus per vector one n_splits = occupied+1 rejection, one repeated "
     "run and one BlockShuffleSplit run. RANDOM part: 2-D layouts up to 8x8 blocks, 10-2000 points (uniform / gaussian / "
     "clustered / one heavy block / sparse), shape or spacing (scalar or per direction, non-square blocks), coordinates "
-    "1e-2..1e6 with offsets up to 1e3 extents, C / Fortran / strided / float32 matrices, BlockKFold (n_splits 2..occupied, "
+    "1e-2..1e6 with offsets up to 1e3 extents, C / Fortran / strided / float32 / int64 matrices, BlockKFold (n_splits 2..occupied, "
     "shuffle, balance, int / RandomState / None random_state) and BlockShuffleSplit (test/train sizes as fractions and "
-    "counts, balancing 1..20), nested use through cross_val_score (serial and dask-delayed) and train_test_split; points are "
+    "counts, balancing 1..20); SPARSE part: 100-1000 clustered points on fine meshes of 60x60 .. 200x200 blocks (shape or spacing), "
+    "so that the occupied block ids span more than 10 x (points + selected blocks) with several blocks holding 2+ points, float64 / "
+    "float32 / int64 / int32 coordinates, C / Fortran / strided matrices, BlockShuffleSplit test_size 0.05..0.5 / counts / train_size "
+    "(a handful to > 100 test blocks), balancing 1..10, BlockKFold n_splits 2..10 shuffle on/off; nested use through cross_val_score (serial and dask-delayed) and train_test_split; points are "
     "kept >= 1e-6 block sizes away from interior block edges. Non-trivial = unequal block populations, or an empty block, "
     "or n_splits = number of occupied blocks; distinct = hash of (class, parameters, X)."
 )
@@ -86,8 +89,8 @@ SAMPLE_OCCUPANCIES = (0, 0, 1, 1, 2, 3, 7, 50, 200)
 
 def plan(tier):
     if tier == "quick":
-        return collections.OrderedDict(lattice=LATTICE_CHUNKS["quick"], lattice_sample=8, random2d=36, nested=4, partition=2)
-    return collections.OrderedDict(lattice=LATTICE_CHUNKS["thorough"], lattice_sample=64, random2d=480, nested=48, partition=24)
+        return collections.OrderedDict(lattice=LATTICE_CHUNKS["quick"], lattice_sample=8, random2d=36, sparse_fine=10, nested=4, partition=2)
+    return collections.OrderedDict(lattice=LATTICE_CHUNKS["thorough"], lattice_sample=64, random2d=480, sparse_fine=160, nested=48, partition=24)
 
 
 class _State:
@@ -423,6 +426,29 @@ def install(tap, run):
                                   witness(cv, xmat, labels, observed_labels=observed, split_index=g, train=train, test=test),
                                   key="integrity:observed")
 
+        # input class "sparse ids": the occupied ids span far more than the number of points + selected blocks
+        # (numpy's set-membership / unique routines switch algorithm on exactly these ratios)
+        if good_pairs and all_usable and n_occupied:
+            id_range = int(occupied[-1] - occupied[0])
+            multi = int((pops_occ >= 2).sum())
+            for pair in pairs:
+                n_sel = int(np.count_nonzero(np.bincount(labels[np.asarray(pair[1])]))) if np.asarray(pair[1]).size else 0
+                if id_range > 10 * (n + n_sel) and multi >= 2:
+                    run.count("class:sparse_ids:pairs")
+                    if n_sel >= 10 * n ** 0.145:
+                        run.count("class:sparse_ids:pairs_many_selected_blocks(sort regime)")
+                    else:
+                        run.count("class:sparse_ids:pairs_few_selected_blocks(loop regime)")
+                    if n_sel > 100:
+                        run.count("class:sparse_ids:pairs_over_100_test_blocks")
+            if id_range > 10 * (n + n_occupied) and multi >= 2:
+                run.count("class:sparse_ids:%s" % kind)
+        if xmat.dtype.kind in "iu":
+            run.count("class:integer_coordinates")
+        elif xmat.dtype == np.float32:
+            run.count("class:float32_coordinates")
+        if xmat.flags.f_contiguous and not xmat.flags.c_contiguous:
+            run.count("class:fortran_ordered_X")
         nontrivial = (pops_occ.size > 0 and pops_occ.min() != pops_occ.max()) or n_cells > n_occupied \
             or (kind == "BlockKFold" and cv.n_splits == n_occupied)
         if pairs and nontrivial:
@@ -803,8 +829,12 @@ def _random_layout(rng, tier):
     block = np.repeat(np.arange(cells), counts)
     total = block.size
     u, v = rng.uniform(0.01, 0.99, total), rng.uniform(0.01, 0.99, total)
-    layout = str(rng.choice(["C", "C", "F", "strided", "float32"]))
-    if layout != "float32":  # float32 cannot represent a point 1e-6 block sizes from an edge at these offsets
+    layout = str(rng.choice(["C", "C", "F", "strided", "float32", "int64"]))
+    if layout == "int64":  # integer coordinates: blocks of 1000 x (500|1000|2000) units, points >= 10 units inside
+        d_east, aspect = 1000.0, float(rng.choice([0.5, 1.0, 2.0]))
+        d_north = d_east * aspect
+        west, south = float(rng.integers(-10 ** 6, 10 ** 6)), float(rng.integers(-10 ** 6, 10 ** 6))
+    if layout not in ("float32", "int64"):  # float32 cannot represent a point 1e-6 block sizes from an edge at these offsets
         hostile = rng.random(total) < 0.08
         u[hostile] = rng.choice([1e-6, 1 - 1e-6], int(hostile.sum()))
         hostile = rng.random(total) < 0.08
@@ -826,6 +856,8 @@ def _random_layout(rng, tier):
         v[i_s] = 0.0
     east = west + (pcol + u) * d_east
     north = south + (prow + v) * d_north
+    if layout == "int64":
+        east, north = np.rint(east), np.rint(north)
     perm = rng.permutation(total)
     xmat = np.column_stack([east[perm], north[perm]])
     ext_e, ext_n = xmat[:, 0].max() - xmat[:, 0].min(), xmat[:, 1].max() - xmat[:, 1].min()
@@ -855,6 +887,8 @@ def _random_layout(rng, tier):
         xmat = big[::2, :2]
     elif layout == "float32":
         xmat = xmat.astype("float32")
+    elif layout == "int64":
+        xmat = xmat.astype("int64")
     info = {"layout": "%dx%d" % (n_north, n_east), "cloud": kind, "geometry_mode": mode, "matrix": layout, "points": total,
             "occupied_blocks": int((counts > 0).sum()), "largest_block": int(counts.max())}
     if layout == "float32":
@@ -862,6 +896,123 @@ def _random_layout(rng, tier):
         lab = reference_labels(xmat, geometry.get("spacing"), geometry.get("shape"))
         info["occupied_blocks"] = int(np.unique(lab["labels"]).size)
     return xmat, geometry, info
+
+
+def _sparse_layout(rng):
+    """
+    A few hundred clustered points on a fine block mesh (60x60 .. 200x200): the occupied block ids span far more than
+    10 x (points + blocks), several blocks hold 2+ points. Bounding box = the mesh region exactly.
+    """
+    npoints = int(10 ** rng.uniform(2.0, 3.0))
+    need = 24 * npoints  # cells, so that id range > 10 x (points + selected blocks) with room to spare
+    lo = max(60, int(np.ceil(np.sqrt(need) * 0.7)))
+    n_north = int(rng.integers(min(lo, 180), 201))
+    n_east = int(min(200, max(60, int(np.ceil(need / n_north)) + int(rng.integers(0, 30)))))
+    if rng.random() < 0.5:
+        n_north, n_east = n_east, n_north
+    dtype = str(rng.choice(["float64", "float64", "float64", "float32", "int64", "int32"]))
+    order = str(rng.choice(["C", "F", "F", "strided"]))
+    if dtype in ("int64", "int32"):
+        d_east, aspect = 100.0, float(rng.choice([0.5, 1.0, 2.0]))
+        west, south = float(rng.integers(-10 ** 5, 10 ** 5)), float(rng.integers(-10 ** 5, 10 ** 5))
+    else:
+        d_east = 10 ** rng.uniform(-2, 5)
+        aspect = 1.0 if rng.random() < 0.4 else float(rng.uniform(0.3, 3.0))
+        big = [0.0, 1.0] if dtype == "float32" else [0.0, 1.0, 30.0, 1e3]
+        west = float(rng.choice(big)) * n_east * d_east * float(rng.choice([-1.0, 1.0])) * rng.uniform(0.5, 1.0)
+        south = float(rng.choice(big)) * n_north * d_east * aspect * float(rng.choice([-1.0, 1.0])) * rng.uniform(0.5, 1.0)
+    d_north = d_east * aspect
+    n_clusters = int(rng.integers(4, 40))
+    centres = np.column_stack([rng.uniform(0, n_north, n_clusters), rng.uniform(0, n_east, n_clusters)])
+    spread = rng.uniform(0.4, 4.0, n_clusters)
+    which = rng.integers(0, n_clusters, npoints)
+    prow = np.clip(np.floor(centres[which, 0] + rng.normal(size=npoints) * spread[which]), 0, n_north - 1).astype(int)
+    pcol = np.clip(np.floor(centres[which, 1] + rng.normal(size=npoints) * spread[which]), 0, n_east - 1).astype(int)
+    twins = rng.integers(0, npoints, max(4, npoints // 10))  # make sure several blocks hold 2+ points
+    prow[twins], pcol[twins] = prow[(twins + 1) % npoints], pcol[(twins + 1) % npoints]
+    u, v = rng.uniform(0.02, 0.98, npoints), rng.uniform(0.02, 0.98, npoints)
+    if dtype == "float64":
+        hostile = rng.random(npoints) < 0.05
+        u[hostile] = rng.choice([1e-6, 1 - 1e-6], int(hostile.sum()))
+        hostile = rng.random(npoints) < 0.05
+        v[hostile] = rng.choice([1e-6, 1 - 1e-6], int(hostile.sum()))
+    # anchors: the bounding box is the mesh region
+    pcol[0], u[0] = 0, 0.0
+    pcol[1], u[1] = n_east - 1, 1.0
+    prow[2], v[2] = 0, 0.0
+    prow[3], v[3] = n_north - 1, 1.0
+    east = west + (pcol + u) * d_east
+    north = south + (prow + v) * d_north
+    if dtype in ("int64", "int32"):
+        east, north = np.rint(east), np.rint(north)
+    perm = rng.permutation(npoints)
+    xmat = np.column_stack([east[perm], north[perm]]).astype(dtype)
+    ext_e = float(xmat[:, 0].max()) - float(xmat[:, 0].min())
+    ext_n = float(xmat[:, 1].max()) - float(xmat[:, 1].min())
+    mode = str(rng.choice(["shape", "spacing_pair", "spacing_scalar"]))
+    if mode == "spacing_scalar" and aspect != 1.0:
+        mode = "spacing_pair"
+    if mode == "shape":
+        geometry = {"shape": (n_north, n_east)}
+    elif mode == "spacing_scalar":
+        geometry = {"spacing": float(d_east / (1.0 + rng.uniform(-0.3, 0.3) / max(n_east, n_north)))}
+    else:
+        geometry = {"spacing": (float(ext_n / (n_north + rng.uniform(-0.3, 0.3))), float(ext_e / (n_east + rng.uniform(-0.3, 0.3))))}
+    if order == "F":
+        xmat = np.asfortranarray(xmat)
+    elif order == "strided":
+        big = np.zeros((2 * npoints, 3), dtype=xmat.dtype)
+        big[::2, :2] = xmat
+        xmat = big[::2, :2]
+    lab = reference_labels(xmat, geometry.get("spacing"), geometry.get("shape"))
+    pops = np.bincount(lab["labels"])
+    occupied = np.flatnonzero(pops)
+    info = {"mesh": "%dx%d" % (n_north, n_east), "points": npoints, "dtype": dtype, "matrix": order, "geometry_mode": mode,
+            "occupied_blocks": int(occupied.size), "blocks_with_2+_points": int((pops >= 2).sum()),
+            "occupied_id_range": int(occupied[-1] - occupied[0]), "clusters": n_clusters}
+    return xmat, geometry, info
+
+
+def _run_sparse(run, index, rng):
+    """Sparse data on fine meshes: the class in which numpy's isin/unique leave the lookup-table regime."""
+    import verde
+
+    for rep in range(3):
+        xmat, geometry, info = _sparse_layout(rng)
+        n_occ = info["occupied_blocks"]
+        run.count("input:sparse_fine_layouts")
+        run.count("input:sparse_fine:dtype=%s" % info["dtype"])
+        run.count("input:sparse_fine:matrix=%s" % info["matrix"])
+        run.count("input:sparse_fine:geometry=%s" % info["geometry_mode"])
+        cvs = []
+        for _ in range(3):
+            state, state_kind = _random_state(rng)
+            r = rng.random()
+            train_size = None
+            if r < 0.6:
+                test_size = float(rng.choice([0.05, 0.1, 0.2, 0.3, 0.5, rng.uniform(0.05, 0.5)]))
+            elif r < 0.75:
+                test_size = int(rng.integers(3, max(5, n_occ // 2)))
+            elif r < 0.9:
+                test_size, train_size = None, float(rng.choice([0.5, 0.7, 0.9, 0.95]))
+            else:
+                test_size, train_size = float(rng.choice([0.05, 0.2, 0.4])), float(rng.choice([0.3, 0.5]))
+            cvs.append((verde.BlockShuffleSplit(n_splits=int(rng.integers(1, 5)), test_size=test_size, train_size=train_size,
+                                                random_state=state, balancing=int(rng.integers(1, 11)), **geometry), state_kind))
+        for _ in range(3):
+            state, state_kind = _random_state(rng)
+            cvs.append((verde.BlockKFold(n_splits=int(rng.integers(2, 11)), shuffle=bool(rng.random() < 0.5), random_state=state,
+                                         balance=bool(rng.random() < 0.6), **geometry), state_kind))
+        pairs = None
+        for cv, state_kind in cvs:
+            run.count("input:random_state=%s" % state_kind)
+            pairs = _drive(run, cv, xmat, n_occ)
+            if pairs is not None and state_kind == "int" and rng.random() < 0.5:
+                _drive(run, _clone(cv), xmat.copy(order="K"), n_occ)
+        del ST.warnlog[:]
+        if rep == 0 and pairs:
+            run.sample("sparse_fine", {"layout": info, "geometry": geometry, "parameters": _params_text(cv), "X": np.asarray(xmat),
+                                       "first_test_set": pairs[0][1], "n_pairs": len(pairs)})
 
 
 def _random_state(rng):
@@ -1019,6 +1170,8 @@ def run_case(run, tap, stream, index, rng):
                 _run_lattice_sample(run, index, rng)
             elif stream == "random2d":
                 _run_random(run, index, rng)
+            elif stream == "sparse_fine":
+                _run_sparse(run, index, rng)
             elif stream == "nested":
                 _run_nested(run, index, rng)
             elif stream == "partition":
